@@ -603,8 +603,7 @@ pub fn run(ctx: &mut Ctx) {
         message has left the sender's pending set without having been handed over. (checker) the same clauses as \
         an always-property searched by the real multi-threaded BFS. A fifth profile never lets a message overtake an earlier one in flight but duplicates, \
         resends and loses acknowledgements, so that exactly-once is exercised where the recorded finding cannot \
-        interfere. Non-trivial: >= 4 deliveries with at least one delivered out of sequencer order (or the in-order profile)."
-        .into();
+        interfere. Non-trivial: >= 4 deliveries with at least one delivered out of sequencer order (or the in-order profile). Sends and hand-overs are recorded at the wrapped actors' handler boundary (recorder active while the chosen step is re-executed); two systems in five contain stateless reactions, one in five repeats payloads (clauses on sequences and multiplicities); every walk ends with a fair fault-free continuation (8 rounds: all timers fire, everything in flight delivered lowest sequencer first) after which sent == handed over and nothing is pending.".into();
     ctx.assumptions = vec![
         "the equality clause ('once all retransmissions are acknowledged the sequences are equal') is checked as its safety core: a message that is neither pending nor handed over can never become equal".into(),
         "actors do not restart (as the statement assumes)".into(),
